@@ -915,6 +915,7 @@ VOP(pm_race)
 #include <sys/socket.h>
 #include <sys/time.h>
 #include <signal.h>
+#include <cerrno>
 #include <unistd.h>
 
 namespace {
@@ -955,6 +956,9 @@ struct PmConn {
 	Shared<AsioTlsStream>::Ptr stream;
 	std::thread server;
 	std::string serverFailure;
+	std::mutex m;
+	std::condition_variable cv;
+	bool constructed = false;      // the HttpServerConnection exists (its constructor resolved the certificate's user) or the handshake failed
 };
 std::map<int, std::unique_ptr<PmConn>> l_Conns;
 
@@ -1149,6 +1153,9 @@ VOP(pm_copen)
 		} catch (const std::exception& ex) {
 			cp->serverFailure = ex.what();
 		}
+		std::unique_lock<std::mutex> lock(cp->m);
+		cp->constructed = true;
+		cp->cv.notify_all();
 	});
 	c->server = std::thread([cp]() {
 		try { cp->io->run(); } catch (const std::exception& ex) { cp->serverFailure = ex.what(); }
@@ -1158,6 +1165,11 @@ VOP(pm_copen)
 	SSL_set_fd(c->ssl, c->fd);
 	if (SSL_connect(c->ssl) != 1) { PmDestroyConn(*c); throw std::runtime_error("pm_copen: TLS handshake failed"); }
 	c->clientOpen = true;
+	{
+		// the script goes on only when the server side exists: the constructor looks the certificate's user up NOW, not after a later op
+		std::unique_lock<std::mutex> lock(c->m);
+		if (!c->cv.wait_for(lock, std::chrono::seconds(30), [&] { return c->constructed; })) { lock.unlock(); PmDestroyConn(*c); throw std::runtime_error("pm_copen: server side did not come up"); }
+	}
 	l_Conns[id] = std::move(c);
 }
 
@@ -1207,8 +1219,15 @@ VOP(pm_creq)
 	if (closeHdr || wantClose) {
 		// the server announced the end of the connection (or was asked for it): does it really end?
 		char tmp[64];
+		errno = 0;
 		int n = SSL_read(c.ssl, tmp, sizeof tmp);
-		o << " eof=" << (n <= 0 ? 1 : 0);
+		bool eof = false;
+		if (n <= 0) {
+			int e = SSL_get_error(c.ssl, n);
+			// close_notify, or the transport ended; NOT: the receive timeout expired while the server kept the connection
+			eof = e == SSL_ERROR_ZERO_RETURN || e == SSL_ERROR_SSL || (e == SSL_ERROR_SYSCALL && errno != EAGAIN && errno != EWOULDBLOCK);
+		}
+		o << " eof=" << (eof ? 1 : 0);
 		PmCloseClient(c);
 	}
 	Out(o.str());
